@@ -105,10 +105,14 @@ def exec_sequence(desc, ops):
                 joins = [tuple(j) for j in op[2]]
                 ordT = list(net.net.tensors.keys() & other.net.tensors.keys())
                 ordB = list(net.net.bonds.keys() & other.net.bonds.keys())
-                if all(a >= 0 and b >= 0 for a, b in joins):
-                    term = "OMerge %s %s %s %s" % (tn.net_term(other.net, refs),
-                                                   ct.lst([ct.pair(ct.nat(a), ct.nat(b)) for a, b in joins]),
-                                                   tn.zl(ordT), tn.zl(ordB))
+                other_term = tn.net_term(other.net, refs)
+
+                def merge_term(oT, oB):
+                    if all(a >= 0 and b >= 0 for a, b in joins):
+                        return "OMerge %s %s %s %s" % (other_term, ct.lst([ct.pair(ct.nat(a), ct.nat(b)) for a, b in joins]),
+                                                       tn.zl(oT), tn.zl(oB))
+                    return None
+                term = merge_term(ordT, ordB)
                 osnap = (tn.snapshot(other.net), {k: np.array(v) for k, v in other.data.items()})
                 ovalue = tn.ref_dense(other.net, other.data)
                 ocnt = (other.num_tensors, other.num_bonds, other.num_open_axes)
@@ -117,8 +121,31 @@ def exec_sequence(desc, ops):
                 valid, kcls = op_valid(kind, op, net, other, clash), known_class(kind, op, net, other)
                 if kind == "merge":
                     others.append((other, osnap))
+                # the iteration order of the Python sets `self.keys() & other.keys()` inside merge is an input
+                # of the model: RECORD it from this very call (merge renames the shared ids of its private
+                # copy in that order), do not only recompute it
+                from qib.tensor_network.symbolic_network import SymbolicTensorNetwork as _STN
+                called = {"t": [], "b": []}
+                _rt, _rb = _STN.rename_tensor, _STN.rename_bond
+
+                def _rec_t(self_, a, c, _f=_rt):
+                    called["t"].append(a)
+                    return _f(self_, a, c)
+
+                def _rec_b(self_, a, c, _f=_rb):
+                    called["b"].append(a)
+                    return _f(self_, a, c)
+                _STN.rename_tensor, _STN.rename_bond = _rec_t, _rec_b
                 try:
-                    net.merge(other, list(joins))
+                    try:
+                        net.merge(other, list(joins))
+                    finally:
+                        _STN.rename_tensor, _STN.rename_bond = _rt, _rb
+                        if len(called["t"]) == len(ordT) and len(called["b"]) == len(ordB):
+                            if called["t"] != ordT or called["b"] != ordB:
+                                rec["set_order_differs"] = rec.get("set_order_differs", 0) + 1
+                            term = merge_term(called["t"], called["b"])
+                            rec["set_order_recorded"] = rec.get("set_order_recorded", 0) + 1
                     if clash:
                         # the data dictionaries disagree on a key: the merged network cannot mean the
                         # contraction of the two values; the code must refuse (ValueError)
@@ -248,6 +275,7 @@ def gen_ops(rng, desc, thorough):
     for _ in range(L):
         stn = scratch.net
         r = rng.random()
+        op, clash = None, False
         try:
             g = rng.random()
             if g < 0.10:
@@ -268,7 +296,8 @@ def gen_ops(rng, desc, thorough):
                     op = ["transpose", axes]
                 elif q == 4:
                     axes = list(range(n)); rng.shuffle(axes)
-                    axes[rng.randrange(n)] = rng.choice([n, n + 1, -n - 1]) if n else 0
+                    if n:
+                        axes[rng.randrange(n)] = rng.choice([n, n + 1, -n - 1])
                     op = ["transpose", axes if n else [0]]                      # an axis out of range: refused
                 elif q == 5:
                     op = ["merge_self", None, []]
@@ -397,8 +426,10 @@ def gen_ops(rng, desc, thorough):
             pass
         except Exception:
             break
+        if op is None:
+            continue
         ops.append(op)
-        if op[0] == "merge" and "clash" in locals() and clash:
+        if op[0] == "merge" and clash:
             break
     return ops
 
@@ -489,11 +520,18 @@ def run(ctx):
                        "compatible and the transposition is a permutation (the code validates neither); the virtual tensor -1 is not renamed "
                        "- these three are theorem guards AND known findings: the harness runs such inputs on every run, the model reproduces "
                        "the inconsistent network exactly, C08_*_refuted prove the guards necessary")
+    ctx.trusted.append("TN translation (gen/tn.py -> Run.GenTN, fail-closed): merge's fresh-id arithmetic / join validation / del_axes / kept axes, "
+                       "the preconditions of rename_tensor, rename_bond, SymbolicBond, SymbolicTensor.transpose, every `return False` condition of "
+                       "is_consistent, the first tree id and bump rule, as_einsum's sort key and axes-map rule are regenerated from symbolic_network.py "
+                       "and proved equal to what the model uses (C07_source_*, C08_source_*); PINNED by exact source text, not translated: the loop "
+                       "skeleton of is_consistent, its pair-repetition test, as_einsum's first-occurrence rule, transpose's distinctness test; "
+                       "all loops (rename, merge_tensors/bonds, get_bond_axes, as_einsum unification/condensation, tree builder) stay hand-modelled")
     ctx.rules.append("random consistent networks (0-6 tensors, degree<=4, bond dims 1-3, hyper-bonds, multi-edges, self-traces, shared "
                      "open bonds, identity wires, negative/colliding ids) x random operation sequences (length<=12; rename_tensor, "
                      "rename_bond, transpose incl. refused ones, merge with colliding ids / shared datarefs equal+unequal / joins "
                      "reusing axes / out-of-range joins). non-trivial = sequence with >=1 accepted operation on a network with >=1 bond")
-    ctx.lib(["TN/TNCheck", "TN/TNSem"])
+    ctx.lib(["TN/TNCheck", "TN/TNSem", "TN/TNConsistentConv", "TN/TNGenBase"])
+    ctx.translate("GenTN", tn.generate)
     ctx.props()
     rng = ctx.rng
     cases = []
@@ -519,6 +557,8 @@ def run(ctx):
                     ctx.count("merge_with_joins")
         if rec.get("clash"):
             ctx.count("merge_data_clash_raised_after_symbolic_merge")
+        ctx.count("merge_set_order_recorded_from_the_call", rec.get("set_order_recorded", 0))
+        ctx.count("merge_set_order_differs_from_recomputation", rec.get("set_order_differs", 0))
         ctx.count("seq_len=%d" % len(ops))
         desc_s = {"kind": name, "ntensors": len(desc["tensors"]) - 1, "ops": [o[0] for o in ops]}
         cases.append((case_term(rec, net, fails), tn.to_jsonable(inp)))
